@@ -143,12 +143,13 @@ type JQLine struct {
 
 // JQOpts configures one JobQueue world.
 type JQOpts struct {
-	NJC      int   // number of JobConfigs (1..2)
-	MaxC     []int // maxConcurrency per JobConfig
-	StoreLag bool  // the store's listener lags behind the cache
-	JCSync   bool  // run the real jobconfigcontroller too
-	JCLag    bool  // JobConfig objects are not delivered to the cache before Jobs are created
-	MaxJobs  int
+	NJC       int   // number of JobConfigs (1..2)
+	MaxC      []int // maxConcurrency per JobConfig
+	StoreLag  bool  // the store's listener lags behind the cache
+	JCSync    bool  // run the real jobconfigcontroller too
+	JCLag     bool  // JobConfig objects are not delivered to the cache before Jobs are created
+	JobsFirst bool  // on a restart the Job informer lists (and its handlers run) before the JobConfig informer has listed
+	MaxJobs   int
 }
 
 // JQ is the JobQueue module world: real activejobstore, jobqueuecontroller (both
@@ -201,6 +202,13 @@ func NewJQ(o JQOpts, t *sw.Tracer, run int) *JQ {
 	q.build()
 	if !o.JCLag {
 		for q.W.Inf.JobConfigs.Deliver() {
+		}
+		// the queue controller reconciles every added JobConfig once: run those (empty) passes to completion before the run starts
+		for pq := q.qp.Queues["perconfig"]; len(pq.Ready()) > 0; {
+			q.qp.SyncBegin("perconfig", pq.Ready()[0])
+			for q.qp.Stp != nil {
+				q.qp.Step(nil)
+			}
 		}
 		// the initial JobConfig adds are synced to completion before the run starts (status.state = Ready)
 		for q.jp != nil && len(q.jp.Queues["jobconfig"].Pending()) > 0 {
@@ -257,8 +265,14 @@ func (q *JQ) build() {
 	// informers "start": caches relist (no-op on the first build), then the store recovers
 	q.storeH = w.Inf.Jobs.NumHandlers()
 	if q.gen > 0 {
-		w.Inf.JobConfigs.Relist(w.API.List("jobconfigs"))
-		w.Inf.Jobs.Relist(w.API.List("jobs"))
+		if q.O.JobsFirst {
+			// no ordering is guaranteed between informers: the handlers are registered before the caches sync
+			w.Inf.Jobs.Relist(w.API.List("jobs"))
+			w.Inf.JobConfigs.Relist(w.API.List("jobconfigs"))
+		} else {
+			w.Inf.JobConfigs.Relist(w.API.List("jobconfigs"))
+			w.Inf.Jobs.Relist(w.API.List("jobs"))
+		}
 	}
 	if err := store.Recover(context.Background()); err != nil {
 		panic(err)
